@@ -819,6 +819,20 @@ pub fn run_history(sh: &dyn DynShape, tape: &[u8], cfg: &HistCfg, st: &mut Stats
                         sh.new_in_place(b2.slice(), val, &[], &mut |_| {}).ok()?;
                         Some(b2.as_ref().to_vec())
                     };
+                    // the container compared with itself and with a second view of its own bytes
+                    {
+                        let want = values_eq(ty, &abs, &abs);
+                        match live.eq_self() {
+                            Some((x, y)) if x == want && y == want => {}
+                            other => {
+                                stop = Some(Stop::Violation(Violation {
+                                    key: "equality".into(),
+                                    msg: format!("{}: after {:?} comparing the container {} with itself / with a second view of the same bytes gives {:?} where element-wise equality gives {}", name, outcome.trace, abs.show(), other, want),
+                                }));
+                                return;
+                            }
+                        }
+                    }
                     // same contents, different capacity, different garbage in the spare room
                     if let Some(img2) = mk(&abs, 0xA7) {
                         let mut b2 = Guarded::new_aligned(img2.len(), a, 0, false);
